@@ -8,7 +8,7 @@ import itertools
 import numpy as np
 import z3
 
-from .values import (Cx, NDArr, PyRaise, Unsupported, b_and, b_ite, b_not, b_or, is_sym, num_binop, num_cmp, simp, to_frac,
+from .values import (Cx, NDArr, PyRaise, Unsupported, b_and, b_ite, b_not, b_or, is_sym, num_binop, num_cmp, simp, to_frac, cx_binop,
                      z, obj_array, coerce_cell, arr_kind_of, elementwise, to_real, trunc_to_int)
 
 MODELS = {}
@@ -115,9 +115,72 @@ def _enumerate(I, it, start=0):
     return [(start + i, x) for i, x in enumerate(I.iterate(it))]
 
 
+class CountIter:
+    """itertools.count(start, step): an unbounded arithmetic progression; only meaningful next to a finite iterable (zip) or with islice."""
+
+    def __init__(self, start=0, step=1):
+        self.start, self.step = start, step
+
+    def take(self, n):
+        return [num_binop("+", self.start, num_binop("*", k, self.step)) if (is_sym(self.start) or is_sym(self.step)) else self.start + k * self.step for k in range(n)]
+
+
+@model("itertools.count")
+def _it_count(I, start=0, step=1):
+    return CountIter(start, step)
+
+
 @model("builtins.zip")
 def _zip(I, *its):
-    return [tuple(t) for t in zip(*[I.iterate(x) for x in its])]
+    finite = [I.iterate(x) for x in its if not isinstance(x, CountIter)]
+    if not finite:
+        raise Unsupported("zip of unbounded iterators only")
+    n = min(len(f) for f in finite)
+    cols = [x.take(n) if isinstance(x, CountIter) else I.iterate(x) for x in its]
+    return [tuple(t) for t in zip(*cols)]
+
+
+_MISSING = object()
+
+
+@model("builtins.next")
+def _next(I, it, default=_MISSING):
+    """next() of a generator expression / iterator the engine has materialised: its first element (generator expressions are evaluated eagerly; the
+    conditions of the elements before the first hit are the same ones a lazy evaluation would test)."""
+    items = I.iterate(it)
+    if items:
+        return items[0]
+    if default is _MISSING:
+        raise PyRaise("StopIteration", "")
+    return default
+
+
+class StaticFn:
+    """staticmethod(f) stored as a class attribute: reading it through the class or an instance gives f itself (no receiver is bound)."""
+
+    def __init__(self, fn):
+        self.fn = fn
+
+
+@model("builtins.staticmethod")
+def _staticmethod(I, f):
+    return StaticFn(f)
+
+
+@model("builtins.slice")
+def _slice(I, *a):
+    return slice(*a)
+
+
+class IndexExprVal:
+    """numpy.s_ / numpy.index_exp: subscripting returns the index itself."""
+
+    def __init__(self, always_tuple=False):
+        self.always_tuple = always_tuple
+
+
+MODELS["numpy.s_"] = IndexExprVal(False)
+MODELS["numpy.index_exp"] = IndexExprVal(True)
 
 
 @model("builtins.list")
@@ -445,7 +508,10 @@ def _d_get(I, d, k, default=None):
     if isinstance(k, SStr):
         k = k.concrete_or_self()
     if is_sym(k) or isinstance(k, SStr):
-        raise Unsupported("dict.get with symbolic key")
+        # d.get(k, default) == (d[k] if k in d else default): membership is decided (forking on a symbolic key), the look-up is the engine's own subscript
+        if I.decide(I.truth(I.contains(d, k))):
+            return I.subscript(d, k)
+        return default
     return d.get(I.hashable(k), default)
 
 
@@ -1029,6 +1095,76 @@ def _vstack(I, seq):
     arrs = [as_arr(x) for x in I.iterate(seq)]
     kind = "f" if any(a.kind == "f" for a in arrs) else arrs[0].kind
     return NDArr(np.vstack([a.data for a in arrs]), kind)
+
+
+def _structural(name):
+    """numpy functions that only rearrange cells (no arithmetic, no comparison): run natively on the object arrays of cells."""
+    f = getattr(np, name)
+
+    def unwrap(v, kinds):
+        if isinstance(v, NDArr):
+            kinds.append(v.kind)
+            return v.data
+        if isinstance(v, (list, tuple)) and any(isinstance(x, NDArr) for x in v):
+            return type(v)(unwrap(x, kinds) for x in v)
+        return v
+
+    def wrap(r, kind):
+        if isinstance(r, np.ndarray):
+            if r.dtype != object:
+                r = r.astype(object)
+            return NDArr(r, kind)
+        if isinstance(r, (list, tuple)):
+            return type(r)(wrap(x, kind) for x in r)
+        return r
+
+    def fn(I, *a, **k):
+        kinds = []
+        a2 = [unwrap(x, kinds) for x in a]
+        k2 = {kk: unwrap(v, kinds) for kk, v in k.items()}
+        if any(is_sym(x) for x in list(a2) + list(k2.values()) if not isinstance(x, np.ndarray)):
+            raise Unsupported(f"numpy.{name} with a symbolic shape / axis argument")
+        if not kinds:
+            # plain nested lists: make an object array of cells first
+            a2[0] = obj_array(a2[0]) if isinstance(a2[0], (list, tuple)) else a2[0]
+            kinds.append(arr_kind_of(list(np.asarray(a2[0], dtype=object).reshape(-1))) if isinstance(a2[0], np.ndarray) else "f")
+        kind = "c" if "c" in kinds else ("o" if "o" in kinds else ("f" if "f" in kinds else kinds[0]))
+        try:
+            r = f(*a2, **k2)
+        except (ValueError, IndexError, TypeError) as e:
+            raise PyRaise(type(e).__name__, str(e)[:120])
+        return wrap(r, kind)
+    return fn
+
+
+for _n in ("moveaxis", "rollaxis", "swapaxes", "column_stack", "stack", "dstack", "flip", "fliplr", "flipud", "squeeze", "expand_dims", "roll", "atleast_1d", "atleast_2d",
+           "atleast_3d", "broadcast_to", "take", "delete", "split", "array_split"):
+    if ("numpy." + _n) not in MODELS:
+        model("numpy." + _n)(_structural(_n))
+
+
+@model("numpy.full")
+def _full(I, shape, fill_value, dtype=None, **kw):
+    d = np.empty(_shape(shape), dtype=object)
+    cell = fill_value
+    kind = "o" if isinstance(fill_value, InfVal) else (dtype_kind(dtype) if dtype is not None else arr_kind_of([fill_value]))
+    if not isinstance(fill_value, InfVal):
+        cell = coerce_cell(fill_value, kind)
+    for ix in np.ndindex(*d.shape):
+        d[ix] = cell
+    return NDArr(d, kind)
+
+
+@model("numpy.negative")
+def _negative(I, a, out=None, **kw):
+    A = as_arr(a)
+    r = elementwise(lambda x: num_binop("-", 0, x) if not isinstance(x, Cx) else cx_binop("-", Cx(0, 0), x), A)
+    if out is not None:
+        if not isinstance(out, NDArr) or out.shape != A.shape:
+            raise Unsupported("numpy.negative with a mismatching out= array")
+        out.data[...] = r            # out may be a view of the argument: numpy writes through it
+        return out
+    return NDArr(r, A.kind)
 
 
 @model("numpy.tile")
